@@ -15,7 +15,8 @@ RULE = ("Hypothesis draws histories (<=30 calls) over 4 pids (a suffix, an exten
         "returns exactly its content; when delete_object(pid) returned and pid was the only line of "
         "its cid's list, the object and the list are gone. Non-trivial = a pid is deleted while "
         "another pid still shares its object, or an invalid-verdict call hits a referenced object; "
-        "distinct key = the whole sequence of (op, pid, content, outcome) of a history that contains a sharing event.")
+        "distinct key = the whole sequence of (op, pid, content, outcome) of a history that contains a sharing event."
+        ' One case in four uses a pid pool with a canonically equivalent NFC / NFD pair. History lengths are spread over [2, 30] by construction.')
 ASSUMPTIONS = ["single thread", "process-local: crashes and faults are C10/C13"]
 SHRINK_BUDGET = 30.0
 PIDS = ["doi:10.1/x", "10.1/x", "doi:10.1/x.2", "DOI:10.1/X"]
